@@ -8,7 +8,8 @@ ID = "C06"
 LEVEL = "proof"
 LEVEL_TEXT = ("Lean 4 theorem C06_program: for EVERY straight-line program over {construct, select (any row/column selection of any "
               "earlier array, to any depth), whole-array alias a[...], ufunc with scalar / array, concatenate, sort, cumsum, diff, "
-              "assign (any index, any value kind), read, read through an index, row sums} and every input, the observation trace of "
+              "assign (any index, any value kind), poke (a write through the flat view or through the numpy array the array was "
+              "constructed over), read, read through an index, row sums} and every input, the observation trace of "
               "the heap model (flat buffers + shapes, selections materialised into their own buffer, aliases sharing a buffer, "
               "assignment writing the shared buffer) equals the trace under the reference semantics in which every variable simply "
               "denotes a cell holding a plain list of rows (aliases share the cell): so a derived array is indistinguishable from a "
@@ -19,12 +20,13 @@ LEVEL_NOTE = ("Trusted: Lean kernel (+ standard axioms), kernel translator, N la
               "operations share a buffer) is hand-modelled and tied by correspondence -- a re-introduced lazy view shows up as a trace "
               "difference after a write to the source. where / unique and float data are exercised under C07/C08 only.")
 TECHNIQUE = "Lean 4 simulation proof (induction over the program) heap model vs store of rows; program-level correspondence"
-DESIGN_REF = "6.6"
+DESIGN_REF = "7"
 LEAN_MODULES = ["NpsVerif.Props.C06"]
 KERNELS = ("view2_ends", "calc_lengths", "pos_col_slice", "col_slice_slice", "col_slice_int")
 RULE = ("cases = random well-typed straight-line programs: 1-2 input arrays (shapes with empty rows) + 1..10 statements from the "
-        "13-statement alphabet, selections of selections to any depth, then a final read of every array; run with two index-object "
-        "variants; distinct = distinct programs; non-trivial = >= 1 selection or alias followed by an assignment or read")
+        "14-statement alphabet, selections of selections to any depth, then a final read of every array; a quarter are derivation "
+        "chains (arrays derived from derived arrays, then writes into intermediate ones, no reads in between); input arrays are "
+        "constructed over contiguous / strided / reversed / column views of numpy arrays; run with two index-object variants; distinct = distinct programs; non-trivial = >= 1 selection or alias followed by an assignment or read")
 EXHAUSTIVE = {"quick": False, "thorough": False}
 CORRESPONDENCE_ONLY = ["np.where / unique inside programs", "non-integer dtypes"]
 ASSUMPTIONS = []
@@ -33,7 +35,7 @@ ASSUMPTIONS = []
 def cases(rng, tier):
     out = []
     for i in range(2500 if tier == "quick" else 40000):
-        out.append({"prog": proggen.gen_program(rng, rng.randint(1, 10), chain=(i % 4 == 3)), "variant": rng.randint(0, 11)})
+        out.append({"prog": proggen.gen_program(rng, rng.randint(1, 10), chain=(i % 4 == 3)), "variant": rng.randint(0, 29)})
     return out
 
 
